@@ -124,6 +124,9 @@ def send_checks(tier, rng, report):
                 failing.append((case, fi or ["C01:send_fault_correspondence"], common._jsonable(o), common._jsonable(m)))
         batch.clear()
     for c in cases(tier, rng):
+        if not fake_net.can_drive(2, 30, c["retries"], 65464, 0):
+            stats["send_fault_cases_skipped_by_the_driver"] = stats.get("send_fault_cases_skipped_by_the_driver", 0) + 1
+            continue
         batch.append(c)
         if len(batch) >= 500:
             flush()
